@@ -145,3 +145,73 @@ package executor
 //@     frame nothing
 //@   call copy
 //@     requires [string_copied_out_of_the_chunk] copied && arg0 == newStr && arg1 == oriStr
+
+// ---- merging the pending point of a group with the point of the next chunk (first/last/min/max). The answer must
+// not depend on where chunk boundaries fall, so the merge has to choose by the same total order the in-chunk reduce
+// uses: first = earliest time, ties to the larger value; last = latest time, ties to the larger value; min/max = by
+// value, ties to the earlier time. (Type parameter T: modelled as an ordered integer domain, see evidence.)
+//@ prop C08
+//@ func FirstMerge
+//@   requires prevPoint != nil && currPoint != nil && prevPoint != currPoint
+//@   ghost took bool = false
+//@   call Assign
+//@     requires arg0 == currPoint
+//@     set took = true
+//@   ensures [pending_nil_takes_current] old(prevPoint.isNil) ==> took
+//@   ensures [earlier_point_wins] old(currPoint.time) < old(prevPoint.time) ==> took
+//@   ensures [equal_time_takes_larger_value] old(currPoint.time) == old(prevPoint.time) && old(currPoint.value) > old(prevPoint.value) ==> took
+//@   ensures [otherwise_pending_kept] !old(prevPoint.isNil) && (old(currPoint.time) > old(prevPoint.time) || (old(currPoint.time) == old(prevPoint.time) && old(currPoint.value) <= old(prevPoint.value))) ==> !took
+//@ func LastMerge
+//@   requires prevPoint != nil && currPoint != nil && prevPoint != currPoint
+//@   ghost took bool = false
+//@   call Assign
+//@     requires arg0 == currPoint
+//@     set took = true
+//@   ensures [pending_nil_takes_current] old(prevPoint.isNil) ==> took
+//@   ensures [later_point_wins] old(currPoint.time) > old(prevPoint.time) ==> took
+//@   ensures [equal_time_takes_larger_value] old(currPoint.time) == old(prevPoint.time) && old(currPoint.value) > old(prevPoint.value) ==> took
+//@   ensures [otherwise_pending_kept] !old(prevPoint.isNil) && (old(currPoint.time) < old(prevPoint.time) || (old(currPoint.time) == old(prevPoint.time) && old(currPoint.value) <= old(prevPoint.value))) ==> !took
+//@ func MinMerge
+//@   requires prevPoint != nil && currPoint != nil && prevPoint != currPoint
+//@   ghost took bool = false
+//@   call Assign
+//@     requires arg0 == currPoint
+//@     set took = true
+//@   ensures [nil_current_changes_nothing] old(currPoint.isNil) ==> !took
+//@   ensures [smaller_value_wins] !old(currPoint.isNil) && (old(prevPoint.isNil) || old(currPoint.value) < old(prevPoint.value)) ==> took
+//@   ensures [equal_value_takes_earlier_time] !old(currPoint.isNil) && old(currPoint.value) == old(prevPoint.value) && old(currPoint.time) < old(prevPoint.time) ==> took
+//@   ensures [otherwise_pending_kept] !old(prevPoint.isNil) && (old(currPoint.value) > old(prevPoint.value) || (old(currPoint.value) == old(prevPoint.value) && old(currPoint.time) >= old(prevPoint.time))) ==> !took
+//@ func MaxMerge
+//@   requires prevPoint != nil && currPoint != nil && prevPoint != currPoint
+//@   ghost took bool = false
+//@   call Assign
+//@     requires arg0 == currPoint
+//@     set took = true
+//@   ensures [nil_current_changes_nothing] old(currPoint.isNil) ==> !took
+//@   ensures [larger_value_wins] !old(currPoint.isNil) && (old(prevPoint.isNil) || old(currPoint.value) > old(prevPoint.value)) ==> took
+//@   ensures [equal_value_takes_earlier_time] !old(currPoint.isNil) && old(currPoint.value) == old(prevPoint.value) && old(currPoint.time) < old(prevPoint.time) ==> took
+//@   ensures [otherwise_pending_kept] !old(prevPoint.isNil) && (old(currPoint.value) < old(prevPoint.value) || (old(currPoint.value) == old(prevPoint.value) && old(currPoint.time) >= old(prevPoint.time))) ==> !took
+
+// ---- LIMIT push-down into the store ("limit cut": each reader keeps only the limit+offset series with the
+// earliest first row). That is the same answer only if every stored row of a kept series is a result row: no
+// aggregate call and no field filter (a filter can reject the early rows of the kept series while a pruned series
+// holds earlier matching rows - and the pruning is per reader, so the answer would depend on reader parallelism).
+//@ func (*QuerySchema).HasFieldCondition
+//@   requires qs != nil
+//@   ensures result == qs.hasFieldCondition
+//@   assigns nothing
+//@ func (*QuerySchema).HasCall
+//@   requires qs != nil
+//@   ensures result == (len(qs.calls) > 0)
+//@   assigns nothing
+//@ func (*QuerySchema).HasLimit
+//@   requires qs != nil
+//@   call .GetLimit
+//@     frame nothing
+//@   call .GetOffset
+//@     frame nothing
+//@   assigns nothing
+//@ func (*QuerySchema).CanLimitCut
+//@   requires qs != nil
+//@   ensures [never_with_a_field_filter] result ==> !old(qs.hasFieldCondition)
+//@   ensures [never_with_a_call] result ==> old(len(qs.calls)) == 0
